@@ -447,6 +447,7 @@ void World::on_timer_set(KFd &k, uint64_t ns) {
 void World::on_log(int pri, const std::string &line) {
 	(void)pri;
 	if (logs.size() < 200) logs.push_back(line);
+	dbg("log: %s", line.c_str());
 	trace.tag("log");
 	scan_secret("log line", line.data(), line.size());
 }
